@@ -24,6 +24,7 @@ type Job struct {
 	C18      *C18Cfg    `json:"c18,omitempty"`
 	C03      *C03Cfg    `json:"c03,omitempty"`
 	C14      *C14Cfg    `json:"c14,omitempty"`
+	C01      *C01Cfg    `json:"c01,omitempty"`
 	C14Ctl   *C14CtlCfg `json:"c14ctl,omitempty"`
 	CodecSig string     `json:"codec_sig,omitempty"` // harness "codec": the violation signature to re-check
 	Mode     string     `json:"mode"`                // explore | split | replay
@@ -108,6 +109,8 @@ func runOnce(job *Job, ch vs.Chooser, trace bool) (*vs.Result, *Outcome) {
 		out, res = c14Run(job.C14, cc, trace)
 	case "C14ctl":
 		out, res = c14CtlRun(job.C14Ctl, cc, trace)
+	case "C01conc", "C06conc", "C12conc":
+		out, res = c01Run(job.C01, cc, trace)
 	default:
 		return &vs.Result{Fatal: "unknown harness " + job.Harness}, nil
 	}
@@ -165,6 +168,8 @@ func (job *Job) cfgString() string {
 		return job.C14.String()
 	case job.C14Ctl != nil:
 		return job.C14Ctl.String()
+	case job.C01 != nil:
+		return job.C01.String()
 	case job.Harness == "codec":
 		return "codec product space (Wire.Write -> Wire.Read), part producing " + job.CodecSig
 	}
